@@ -12,6 +12,7 @@ import (
 
 	mail "github.com/wneessen/go-mail"
 
+	"verif/internal/ev"
 	"verif/internal/faultio"
 	"verif/internal/refsmtp"
 	"verif/internal/sasl"
@@ -233,4 +234,48 @@ func runSendT(newCfg func(n int) *refsmtp.Config, wrap func(n int, tc *faultio.T
 	sr.Farm.Shutdown()
 	sr.Sessions, sr.Conns = sr.Farm.Snapshot()
 	return sr
+}
+
+// enumTree runs run(root, script) for every script with at most maxDev(root)
+// deviations of the given kinds: a script is extended only at positions after its
+// last deviation, so every distinct execution is visited exactly once. run returns
+// the number of decision points (steps) the execution had.
+func enumTree[C any](r *ev.Run, roots []C, maxDev func(C) int, kinds []string, run func(c C, script []scriptEntry) int) (executions int) {
+	type item struct {
+		c      C
+		script []scriptEntry
+	}
+	var level []item
+	for _, c := range roots {
+		level = append(level, item{c, nil})
+	}
+	for len(level) > 0 {
+		var mu sync.Mutex
+		var next []item
+		cur := level
+		executions += len(cur)
+		r.Parallel(len(cur), func(i int) {
+			it := cur[i]
+			steps := run(it.c, it.script)
+			if len(it.script) >= maxDev(it.c) {
+				return
+			}
+			last := -1
+			if n := len(it.script); n > 0 {
+				last = it.script[n-1].Index
+			}
+			var kids []item
+			for pos := last + 1; pos < steps; pos++ {
+				for _, k := range kinds {
+					sc := append(append([]scriptEntry(nil), it.script...), scriptEntry{Index: pos, Kind: k})
+					kids = append(kids, item{it.c, sc})
+				}
+			}
+			mu.Lock()
+			next = append(next, kids...)
+			mu.Unlock()
+		})
+		level = next
+	}
+	return executions
 }
